@@ -174,7 +174,8 @@ pub fn jobs(id: &str, thorough: bool) -> Vec<Job> {
         }
         "C13" => {
             for c in scen::s_passthrough(thorough) {
-                v.push(w(c, &["C13"], if thorough { 1 } else { 0 }, false));
+                // default path only: the differential baseline is the happy path of the following payment
+                v.push(w(c, &["C13"], 0, false));
             }
         }
         "C14" => {
